@@ -16,8 +16,25 @@ nice cargo test --offline -j 8 -p oxidize-pdf --test $name >> $L 2>&1; r0=$?
 git apply $S/patch.diff || { echo "$id patch-does-not-apply"; exit 2; }
 echo "== demo with patch" >> $L
 nice cargo test --offline -j 8 -p oxidize-pdf --test $name >> $L 2>&1; r1=$?
+left=$(vp status 2>/dev/null | awk '/minutes_left/{print int($2)}')
+if [ -e /tmp/confirm_fast ] || { [ -n "$left" ] && [ "$left" -lt ${FAST_BELOW:-150} ]; }; then
+  # reduced confirmation (time budget): the library's unit tests plus every integration-test binary whose source names a
+  # module stem touched by the patch; recorded as such, and compared against the baseline for the tests that ran
+  stems=$(grep '^+++ b/' $S/patch.diff | sed -E 's#.*/([a-z_0-9]+)\.rs#\1#' | grep -v '^mod$' | sort -u)
+  sel=""
+  for st in $stems; do
+    for f in $(grep -lw "$st" oxidize-pdf-core/tests/*.rs 2>/dev/null | head -40); do sel="$sel --test $(basename $f .rs)"; done
+  done
+  sel=$(echo $sel | tr ' ' '\n' | paste -d' ' - - | sort -u | grep -v "$name" | tr '\n' ' ')
+  echo "== REDUCED suite with patch: --lib $sel" >> $L
+  nice cargo nextest run -p oxidize-pdf --lib $sel --no-fail-fast --tool-config-file pb:/w/lib/nextest.toml --profile pb --test-threads 8 --offline >> $L 2>&1
+  python3 /verif/tools/baseline_cmp.py --ran-only target/nextest/pb/junit.xml >> $L 2>&1; r2=$?
+  mode=reduced
+else
 echo "== full suite with patch" >> $L
 nice cargo nextest run --workspace --no-fail-fast --tool-config-file pb:/w/lib/nextest.toml --profile pb --test-threads 8 --offline >> $L 2>&1
 python3 /verif/tools/baseline_cmp.py target/nextest/pb/junit.xml >> $L 2>&1; r2=$?
+  mode=full
+fi
 git checkout -q -- . ; rm -f oxidize-pdf-core/tests/$name.rs
-echo "$id demo_unchanged_exit=$r0 demo_patched_exit=$r1 suite_regressions_exit=$r2" | tee -a $L
+echo "$dir demo_unchanged_exit=$r0 demo_patched_exit=$r1 suite_regressions_exit=$r2 suite_mode=$mode" | tee -a $L
